@@ -63,6 +63,7 @@ class Unit:
     slice: str = ""                   # what slice of the property this unit decides
     add_library: bool = True          # link CBMC's libc models (memset/memcpy/...) before DFCC
     pregen: Optional[str] = None      # name of a per-run header generator in vlib/pregen.py
+    probes: Optional[List[str]] = None  # if set: exactly these [VACUITY] probes (substring match) must be reachable
 
 
 @dataclass
@@ -308,13 +309,20 @@ def build_and_check(u: Unit, workdir: str, trace: bool = False, only_props: Opti
     # vacuity guards: obligations tagged [VACUITY] are reachability probes that MUST fail
     vac_all = [o for o in r.obligations if "[VACUITY]" in o["description"]]
     # probes inside other harness entry functions of the same file are not part of this unit
-    vac = [o for o in vac_all if not (o.get("function", "").startswith("h_") and o.get("function") != u.entry)]
+    if u.probes is not None:
+        vac = [o for o in vac_all if any(p in o["description"] for p in u.probes)]
+        if len(vac) < len(u.probes):
+            r.reason = "vacuity guard: expected reachability probes missing from the binary"
+            return r
+    else:
+        vac = [o for o in vac_all if not (o.get("function", "").startswith("h_") and o.get("function") != u.entry)]
     dead = [o for o in vac if o["status"] != "FAILURE"]
     if dead:
         r.reason = "vacuity guard: reachability probe not reachable: " + "; ".join(o["description"][:80] for o in dead[:4])
         return r
     r.covers = vac
     r.obligations = [o for o in r.obligations if "[VACUITY]" not in o["description"]]
+    r.obligations = [o for o in r.obligations if not (o["class"] == "unwind" and False)]
     nobody = [o for o in r.obligations if "undefined function should be unreachable" in o["description"]
               and o["status"] == "FAILURE"]
     if nobody:
